@@ -415,6 +415,28 @@ pub fn structured(orig: &[u8], map: &ProofMap, rng: &mut Rng, digest: usize) -> 
             }
         }
     }
+    // coordinated FRI surgery: a layer removed / duplicated together with its commitment
+    if let (Some(nl_off), Some(cm)) = (nl_off, map.fields.iter().find(|f| f.name == "commitments")) {
+        for (k, r) in map.fri_layer_records.iter().enumerate() {
+            let d0 = cm.off + (map.num_segments + 1 + k) * digest;
+            if d0 + digest > cm.off + cm.len || r.0 < cm.off + cm.len {
+                continue;
+            }
+            // the layer records follow the commitments in the layout: edit the records first
+            let mut b = orig.to_vec();
+            b.drain(r.0..r.1);
+            b[nl_off] = b[nl_off].wrapping_sub(1);
+            b.drain(d0..d0 + digest);
+            fix_lengths(map, &mut b, cm.off, -(digest as isize));
+            out.push(Mutant { class: "fri-layer-and-its-commitment-removed".into(), bytes: b });
+            let mut b = orig.to_vec();
+            b.splice(r.1..r.1, orig[r.0..r.1].to_vec());
+            b[nl_off] = b[nl_off].wrapping_add(1);
+            b.splice(d0..d0, orig[d0..d0 + digest].to_vec());
+            fix_lengths(map, &mut b, cm.off, digest as isize);
+            out.push(Mutant { class: "fri-layer-and-its-commitment-duplicated".into(), bytes: b });
+        }
+    }
     // query record surgery: swap the records of two query sets
     for a in 0..map.queries.len() {
         for bq in a + 1..map.queries.len() {
